@@ -143,6 +143,41 @@ theorem wake_served_at_quiescence {cfg : Cfg} (ok : CfgOk cfg) {s : St}
     · rw [hb] at h; simp at h
     · exact terminal_no_hand ht hT h
 
+/-- **Wake-ups, liveness with an explicit bound.** With the other threads finished, a running loop
+with an unserved request enters the wake callback (`unserved` reset: the callback starts after
+every request issued so far) — or leaves the loop because an exit is being carried out — within
+`mu2 + 1` of its own steps; every one of these steps is enabled. -/
+theorem wake_served_in_bounded_steps {cfg : Cfg} (ok : CfgOk cfg) :
+    ∀ (m : Nat) (s : St), Reach (step cfg) (mkInit cfg) s → OthersDone cfg s → Running cfg s →
+      s.unserved > 0 → mu2 cfg s ≤ m →
+      ∃ k, k ≤ m + 1 ∧ Reach (step cfg) (mkInit cfg) (solo cfg k s) ∧
+        ((solo cfg k s).unserved = 0 ∨ gone ((solo cfg k s).pc cfg.lt) = true) := by
+  intro m
+  induction m with
+  | zero =>
+    intro s hr hod hrun hreq hm
+    obtain ⟨ht, hs, _⟩ := reach_inv ok hr
+    obtain ⟨hen, h⟩ := wake_decreases ht hs hod hrun hreq ok.ltn
+    refine ⟨1, Nat.le_refl _, reach_nxt hr hen, ?_⟩
+    rcases h with h | h | ⟨h, _, _⟩
+    · exact Or.inl h
+    · exact Or.inr h
+    · omega
+  | succ m ih =>
+    intro s hr hod hrun hreq hm
+    obtain ⟨ht, hs, _⟩ := reach_inv ok hr
+    obtain ⟨hen, h⟩ := wake_decreases ht hs hod hrun hreq ok.ltn
+    have hr' := reach_nxt hr hen
+    rcases h with h | h | ⟨h1, h2, h3⟩
+    · exact ⟨1, by omega, hr', Or.inl h⟩
+    · exact ⟨1, by omega, hr', Or.inr h⟩
+    · have hod' : OthersDone cfg (nxt cfg s cfg.lt) := by
+        intro u hu
+        rw [pc_other_step u hu]
+        exact hod u hu
+      obtain ⟨k, hk, hrk, hdk⟩ := ih (nxt cfg s cfg.lt) hr' hod' h3 h2 (by omega)
+      exact ⟨k + 1, by omega, hrk, hdk⟩
+
 /-! ## Clause 3 — an exit request makes `run()` return, after the clear and exit callbacks -/
 
 /-- **Exit, invariant form.** (Repaired `muggle_evloop_exit`, or the original one when the creating
@@ -464,6 +499,59 @@ theorem cfgOk_of_list (b : Backend) (cap : Nat) (io : Bool) (fix : Fix) (roles :
     cases hr : roles.getD (findLoop roles 0) (.waker 0) with
     | loop k => exact ⟨k, rfl⟩
     | _ => rw [hr] at h2; simp [isLoopRole] at h2
+
+theorem findLoop_ge (roles : List Role) (i : Nat) : i ≤ findLoop roles i := by
+  induction roles generalizing i with
+  | nil => simp [findLoop]
+  | cons r rs ih =>
+    cases r <;> simp only [findLoop] <;> first | exact Nat.le_refl _ | exact Nat.le_trans (Nat.le_succ i) (ih (i + 1))
+
+theorem findLoop_spec (roles : List Role) (i : Nat) (h : (roles.filter isLoopRole).length = 1) :
+    findLoop roles i - i < roles.length ∧
+    isLoopRole (roles.getD (findLoop roles i - i) (.waker 0)) = true ∧
+    ∀ t, t < roles.length → t ≠ findLoop roles i - i → isLoopRole (roles.getD t (.waker 0)) = false := by
+  induction roles generalizing i with
+  | nil => simp at h
+  | cons r rs ih =>
+    by_cases hr : isLoopRole r = true
+    · have hf : findLoop (r :: rs) i = i := by cases r <;> simp_all [findLoop, isLoopRole]
+      have hrest : rs.filter isLoopRole = [] := by
+        simp only [List.filter, hr] at h
+        simpa using h
+      rw [hf]
+      refine ⟨by simp, by simpa using hr, ?_⟩
+      intro t ht hne
+      cases t with
+      | zero => simp at hne
+      | succ t =>
+        simp only [List.getD_cons_succ]
+        have hm : t < rs.length := by simpa using ht
+        have := List.filter_eq_nil_iff.mp hrest (rs.getD t (.waker 0)) (by
+          rw [List.getD_eq_getElem?_getD, List.getElem?_eq_getElem hm]; simp)
+        simpa using this
+    · have hr' : isLoopRole r = false := by simpa using hr
+      have hf : findLoop (r :: rs) i = findLoop rs (i + 1) := by cases r <;> simp_all [findLoop, isLoopRole]
+      have hrest : (rs.filter isLoopRole).length = 1 := by
+        simpa [List.filter, hr'] using h
+      obtain ⟨h1, h2, h3⟩ := ih (i + 1) hrest
+      have hge := findLoop_ge rs (i + 1)
+      rw [hf]
+      have he : findLoop rs (i + 1) - i = (findLoop rs (i + 1) - (i + 1)) + 1 := by omega
+      rw [he]
+      refine ⟨by simpa using h1, by simpa using h2, ?_⟩
+      intro t ht hne
+      cases t with
+      | zero => simpa using hr'
+      | succ t =>
+        simp only [List.getD_cons_succ]
+        exact h3 t (by simpa using ht) (by omega)
+
+/-- every configuration built from a role list with exactly one loop thread is well-formed -/
+theorem cfgOk_of_one_loop (b : Backend) (cap : Nat) (io : Bool) (fix : Fix) (roles : List Role)
+    (h : (roles.filter isLoopRole).length = 1) : CfgOk (mkCfg b cap io fix roles) := by
+  obtain ⟨h1, h2, h3⟩ := findLoop_spec roles 0 h
+  simp only [Nat.sub_zero] at h1 h2 h3
+  exact cfgOk_of_list b cap io fix roles h1 h2 h3
 
 /-- the hypotheses of the theorems are satisfiable and the interesting states are reachable: with
 the creator being the exit thread, a waker, a hand-over thread with a good and a bad descriptor and
